@@ -41,8 +41,8 @@ def main(tier, seed):
     # noop() as an operand (documented as a base value for building filters in a loop): noop | a is always true, noop & a is a
     atoms = extra[:3] + [v for v in vocab if v[0] == "S"][:5]
     noops = []
-    for attr in ("tags", "fields", "time", "meas"):
-        nq = ("noop", attr)
+    for nq in [("noop", "tags"), ("noop", "fields"), ("noop", "time"), ("noop", "meas"), ("noop", "tags", "a"), ("noop", "tags", "zz"), ("noop", "fields", "zz"), ("noop", "fields", "a", "y")]:
+        attr = nq[1]
         noops.append(("not", nq))
         for a in atoms:
             noops += [("or", nq, a), ("or", a, nq), ("and", nq, a), ("and", a, nq), ("or", ("and", nq, a), a), ("and", ("or", nq, a), a)]
